@@ -52,3 +52,30 @@ def close(a, b, tol=1e-5):
 
 def eff_pair(pair, eos, include_eos):
     return O.effective(pair[0], eos, include_eos), O.effective(pair[1], eos, include_eos)
+
+
+def large_batch(R, H, N, seed, eos=3):
+    """Deterministic larger instance: hyp resembles ref with edits; eos in a third of the rows of each side.
+    Returned tensors are OFFSET, NON-CONTIGUOUS views (a column block of a larger buffer) on purpose."""
+    x = 12345 + 7919 * seed
+
+    def nxt():
+        nonlocal x
+        x = (1103515245 * x + 12345) % (2 ** 31)
+        return x >> 16
+
+    refs, hyps = [], []
+    for n in range(N):
+        r = [nxt() % 3 for _ in range(R)]
+        h = [r[i % R] if nxt() % 4 else nxt() % 3 for i in range(H)]
+        if n % 3 == 1:
+            r[nxt() % R] = eos
+        if n % 3 == 2:
+            h[nxt() % H] = eos
+        refs.append(r)
+        hyps.append(h)
+    rb = torch.full((R + 2, N + 3), 1, dtype=torch.long)
+    hb = torch.full((H + 2, N + 3), 2, dtype=torch.long)
+    rb[1:R + 1, 2:N + 2] = torch.tensor(refs).t()
+    hb[1:H + 1, 2:N + 2] = torch.tensor(hyps).t()
+    return refs, hyps, rb[1:R + 1, 2:N + 2], hb[1:H + 1, 2:N + 2]
